@@ -93,7 +93,7 @@ def post_dpss(N, NW, k, result):
             c.require('dpss:even-index-positive-sum', bool(np.sum(v) > 0), dict(det, index=i, sum=float(np.sum(v))), feats)
         else:
             c.compare('dpss:odd-index-antisymmetric', v, -v[::-1], 1e-4, feats, scale=m, detail=dict(det, index=i))
-            first = v[np.argmax(np.abs(v) > 1e-6 * m)]
+            first = v[np.argmax(np.abs(v) > 1e-4 * m)]
             c.require('dpss:odd-index-starts-with-positive-lobe', bool(first > 0), dict(det, index=i, first=float(first)), feats)
     if k is None:
         c.require('dpss:default-k-is-round(2NW)', tapers.shape[1] == max(1, int(min(round(2 * NWf), N))),
